@@ -47,5 +47,11 @@ def run(ctx):
     # which keys of a class mapping count as extra (and lose the tags below them) is a question asked by name against a fixed set:
     # a one-shot iterator, or a set that the scan itself shrinks, makes the answer depend on the order of the keys
     S.r02_2_attrset(ctx, 'R13.11')
+    # round 11: one Constructor object serves every node of its class, and a construction is suspended (yield / deep
+    # construct_mapping) while the nested objects - possibly of the same class - are built, in document key order. Anything a
+    # construction parks on the Constructor before that point and reads after it is overwritten by a nested sibling or not
+    # depending on where its key stands.
+    from . import dumpside as D
+    D.r11_1_calltime_writes(ctx, 'R13.12', modules=('yatiml.constructors',), floor=2)
     from . import memo_rules as M
     M.memo_sound(ctx, 'R13.M')
